@@ -34,6 +34,8 @@ pub struct Fields {
     pub key: Field,
     pub body: Field,
     pub tag: Field,
+    /// same text as `body`, indexed with frequencies but without positions
+    pub tw: Field,
     pub sortv: Field,
     pub js: Field,
     pub sort_ty: SortTy,
@@ -45,6 +47,14 @@ pub fn build_schema(sort_ty: SortTy) -> (Schema, Fields) {
     let key = sb.add_u64_field("key", INDEXED | STORED | FAST);
     let body = sb.add_text_field("body", TEXT | STORED);
     let tag = sb.add_text_field("tag", STRING | STORED);
+    let tw = sb.add_text_field(
+        "tw",
+        TextOptions::default().set_indexing_options(
+            TextFieldIndexing::default()
+                .set_tokenizer("default")
+                .set_index_option(tantivy::schema::IndexRecordOption::WithFreqs),
+        ),
+    );
     let sortv = match sort_ty {
         SortTy::U64 => sb.add_u64_field("sortv", NumericOptions::default().set_fast()),
         SortTy::I64 => sb.add_i64_field("sortv", NumericOptions::default().set_fast()),
@@ -70,7 +80,7 @@ pub fn build_schema(sort_ty: SortTy) -> (Schema, Fields) {
         ),
     );
     let schema = sb.build();
-    (schema, Fields { uid, key, body, tag, sortv, js, sort_ty })
+    (schema, Fields { uid, key, body, tag, tw, sortv, js, sort_ty })
 }
 
 pub const SORT_U64: [u64; 6] = [0, 1, 7, 7, 1 << 40, u64::MAX];
@@ -116,6 +126,7 @@ impl DocSpec {
         d.add_u64(f.key, self.key);
         d.add_text(f.body, self.body_text());
         d.add_text(f.tag, TAGS[self.tag as usize]);
+        d.add_text(f.tw, self.body_text());
         if let Some(i) = self.sortv {
             let i = i as usize;
             match f.sort_ty {
@@ -224,6 +235,7 @@ pub fn expected_record(d: &DocSpec, f: &Fields) -> Record {
         pos.entry(VOCAB[*w as usize]).or_default().push(i as u32);
     }
     for (w, p) in pos {
+        terms.insert(format!("tw/{}", hex(w.as_bytes())), format!("tf{}", p.len()));
         terms.insert(format!("body/{}", hex(w.as_bytes())), format!("tf{}@{:?}", p.len(), p));
     }
     if d.js > 0 {
